@@ -29,6 +29,14 @@ impl Tier {
     }
 }
 
+pub fn profile() -> &'static str {
+    if cfg!(debug_assertions) {
+        "checked"
+    } else {
+        "release"
+    }
+}
+
 pub fn verif_root() -> String {
     std::env::var("VERIF_ROOT").unwrap_or_else(|_| "/verif".to_string())
 }
@@ -193,6 +201,8 @@ pub struct Run {
     pub seed: u64,
     pub start: Instant,
     pub silent: bool,
+    /// build profile of this binary: "release" (no debug assertions / overflow checks) or "checked"
+    pub profile: &'static str,
     pub sections: Mutex<Vec<Section>>,
     pub viols: Mutex<Vec<Violation>>,
     pub viol_count: AtomicU64,
@@ -213,6 +223,7 @@ impl Run {
             seed,
             start: Instant::now(),
             silent: false,
+            profile: profile(),
             sections: Mutex::new(Vec::new()),
             viols: Mutex::new(Vec::new()),
             viol_count: AtomicU64::new(0),
@@ -661,4 +672,122 @@ pub fn parse_words(s: &str) -> Result<Vec<u64>, String> {
         return Ok(vec![]);
     }
     s.split('.').map(|x| u64::from_str_radix(x, 16).map_err(|e| format!("word {:?}: {}", x, e))).collect()
+}
+
+// ---------------------------------------------------------------------------------------
+// CONFIG mode: the same exploration in the binary built with debug assertions and overflow
+// checks (`checked` profile). The child prints its run as JSON; the parent merges it.
+
+pub fn run_to_json(run: &Run) -> J {
+    let digest = run.digest();
+    let secs = run.sections.lock().unwrap();
+    let viols = run.viols.lock().unwrap();
+    J::obj()
+        .with("profile", J::s(run.profile))
+        .with("digest", J::s(format!("{:016x}", digest)))
+        .with("viol_count", J::i(run.viol_count.load(Ordering::Relaxed)))
+        .with("machinery", match run.machinery_error.lock().unwrap().clone() {
+            Some(m) => J::s(m),
+            None => J::Null,
+        })
+        .with(
+            "sections",
+            J::Arr(
+                secs.iter()
+                    .map(|s| {
+                        J::obj()
+                            .with("name", J::s(&s.name))
+                            .with("exhaustive", J::Bool(s.exhaustive))
+                            .with("bound", J::s(&s.bound))
+                            .with("states", J::i(s.states))
+                            .with("transitions", J::i(s.transitions))
+                            .with("validated", J::i(s.validated))
+                            .with("nontrivial", J::i(s.nontrivial))
+                            .with("digest", J::s(format!("{:016x}", s.digest)))
+                            .with("wall_s", J::Num(s.wall_s))
+                    })
+                    .collect(),
+            ),
+        )
+        .with(
+            "violations",
+            J::Arr(viols.iter().take(2000).map(|v| J::obj().with("key", J::s(&v.key)).with("sig", J::s(&v.sig)).with("case", J::s(&v.case)).with("expected", J::s(&v.expected)).with("observed", J::s(&v.observed))).collect()),
+        )
+        .with("outcomes", J::from_map(&run.outcomes.lock().unwrap()))
+        .with("extra", J::Obj(run.extra.lock().unwrap().clone()))
+}
+
+/// Run `lsx sub run <prop> <tier> [args]` in the checked binary and merge its sections and
+/// violations into `run`. Returns the child's JSON (for digest joins).
+pub fn child_run(run: &Run, args: &[&str]) -> Option<J> {
+    let exe = match std::env::var("LSX_CHECKED") {
+        Ok(e) => e,
+        Err(_) => {
+            run.machinery("LSX_CHECKED is not set: the checked-profile binary is needed for this property (use ./check)".into());
+            return None;
+        }
+    };
+    let t0 = Instant::now();
+    let out = std::process::Command::new(&exe).arg("sub").arg("run").arg(&run.prop).arg(run.tier.name()).args(args).env("VERIF_SEED", format!("{}", run.seed as i64)).output();
+    let out = match out {
+        Ok(o) => o,
+        Err(e) => {
+            run.machinery(format!("cannot run {}: {}", exe, e));
+            return None;
+        }
+    };
+    if !out.status.success() {
+        run.machinery(format!("checked-profile child failed ({}): {}", out.status, String::from_utf8_lossy(&out.stderr).chars().take(2000).collect::<String>()));
+        return None;
+    }
+    let text = String::from_utf8_lossy(&out.stdout).to_string();
+    let j = match json::parse(&text) {
+        Ok(j) => j,
+        Err(e) => {
+            run.machinery(format!("checked-profile child printed unparsable JSON: {}", e));
+            return None;
+        }
+    };
+    if j.get("profile").and_then(|p| p.as_str()) != Some("checked") {
+        run.machinery("the binary named by LSX_CHECKED was not built with debug assertions".into());
+        return None;
+    }
+    if let Some(m) = j.get("machinery").and_then(|m| m.as_str()) {
+        run.machinery(format!("checked-profile child: {}", m));
+    }
+    let mut secs = run.sections.lock().unwrap();
+    for s in j.get("sections").and_then(|s| s.as_arr()).unwrap_or(&[]) {
+        let g = |k: &str| s.get(k).and_then(|x| x.as_i()).unwrap_or(0) as u64;
+        let sec = Section {
+            name: format!("[checked profile] {}", s.get("name").and_then(|x| x.as_str()).unwrap_or("")),
+            exhaustive: matches!(s.get("exhaustive"), Some(J::Bool(true))),
+            bound: s.get("bound").and_then(|x| x.as_str()).unwrap_or("").to_string(),
+            states: g("states"),
+            transitions: g("transitions"),
+            validated: g("validated"),
+            nontrivial: g("nontrivial"),
+            digest: u64::from_str_radix(s.get("digest").and_then(|x| x.as_str()).unwrap_or("0"), 16).unwrap_or(0),
+            wall_s: 0.0,
+        };
+        if !run.silent {
+            eprintln!("[{}] {:<58} states={:<11} transitions={:<13} nontrivial={:<11} {}", run.prop, sec.name, sec.states, sec.transitions, sec.nontrivial, if sec.exhaustive { "exhaustive" } else { "bounded" });
+        }
+        secs.push(sec);
+    }
+    let mut viols = run.viols.lock().unwrap();
+    for v in j.get("violations").and_then(|s| s.as_arr()).unwrap_or(&[]) {
+        let g = |k: &str| v.get(k).and_then(|x| x.as_str()).unwrap_or("").to_string();
+        viols.push(Violation { key: g("key"), sig: g("sig"), case: g("case"), expected: g("expected"), observed: g("observed") });
+    }
+    run.viol_count.fetch_add(j.get("viol_count").and_then(|x| x.as_i()).unwrap_or(0) as u64, Ordering::Relaxed);
+    let mut outcomes = run.outcomes.lock().unwrap();
+    if let Some(J::Obj(o)) = j.get("outcomes") {
+        for (k, v) in o {
+            *outcomes.entry(format!("checked:{}", k)).or_insert(0) += v.as_i().unwrap_or(0) as u64;
+        }
+    }
+    if !run.silent {
+        eprintln!("[{}] checked-profile child finished in {:.1}s", run.prop, t0.elapsed().as_secs_f64());
+    }
+    Some(j)
 }
